@@ -278,6 +278,31 @@ func runC16(r *Run) {
 		r.check(okRet, "storageManager.getRaw:returns-backend-value", r.fpos(sm), "returns exactly what the backend returned (nil when absent)", "storageManager.getRaw can return a value the backend did not return")
 	})
 
+	r.rule("R12", "a token lives as long as the configuration says: the lifetime storageManager.setRaw hands to Storage.Set / memory.Set is the lifetime it was given, unchanged — rounded or truncated to whole seconds a timeout below half a second becomes 0, which every storage reads as `never expires`, and the token is accepted indefinitely (E3: the argument flows through unchanged)", func() {
+		f := r.Fn(csrfPkg, "(*storageManager).setRaw")
+		var exp *ssa.Parameter
+		for _, p := range f.Params {
+			if strings.HasSuffix(p.Type().String(), "time.Duration") {
+				exp = p
+			}
+		}
+		r.need(exp != nil, "setRaw(key, raw, exp time.Duration)")
+		n := 0
+		for _, c := range callsIn(f, false) {
+			if !strings.HasSuffix(c.Name, ".Set") {
+				continue
+			}
+			args := c.Common.Args
+			if len(args) == 0 || !strings.HasSuffix(args[len(args)-1].Type().String(), "time.Duration") {
+				continue
+			}
+			n++
+			r.check(flowsUnchanged(args[len(args)-1], exp), fmt.Sprintf("setRaw:Set#%d:lifetime-as-given", n), r.pos(c.Instr), "the lifetime is handed on as given",
+				"the lifetime handed to the storage is not the one setRaw was given (it was rounded, truncated or replaced): an IdleTimeout of 400ms becomes 0 = `never expires`, an issued token is then accepted on unsafe requests for ever while its cookie shows the short lifetime")
+		}
+		r.atLeast("Set calls in storageManager.setRaw", n, 2)
+	})
+
 	r.rule("R3", "operands matched against trusted origins are origin-shaped (E3 backwards)", func() {
 		var originShaped func(v ssa.Value) (bool, string)
 		originShaped = func(v ssa.Value) (bool, string) {
